@@ -10,10 +10,25 @@ import (
 	"sync"
 	"time"
 
+	"github.com/mlange-42/arche/ecs"
 	"verifharness/runner"
 	"verifharness/sim"
 	"verifharness/wx"
 )
+
+// c13SharedDump is loaded by every replay of the shared-dump scenario (three entities issued, the middle one removed;
+// the slices have spare capacity, as after deserialisation into pre-allocated buffers).
+var c13SharedDump = func() *ecs.EntityDump {
+	w := ecs.NewWorld()
+	w.NewEntity()
+	e := w.NewEntity()
+	w.NewEntity()
+	w.RemoveEntity(e)
+	d := w.DumpEntities()
+	d.Entities = append(make([]ecs.Entity, 0, 512), d.Entities...)
+	d.Alive = append(make([]uint32, 0, 512), d.Alive...)
+	return &d
+}()
 
 func c13Scenarios(tier string) []runner.Job {
 	tr := func(c *sim.Cfg, listener bool) wx.Scenario {
@@ -37,6 +52,12 @@ func c13Scenarios(tier string) []runner.Job {
 			c.BatchRefs = []int{0, 5}
 			return c
 		}(), false), pick(tier, 3, 4), 1),
+	}
+	// replays that all load the same dump object: loading must not tie the dump to the world
+	{
+		c := sim.EntCfg("c13-ent-k6-shared-dump", 6, 1, fBNew|fBRem, 0)
+		c.PreloadDump = func() *ecs.EntityDump { return c13SharedDump }
+		js = append(js, job(tr(c, false), pick(tier, 5, 7), 1))
 	}
 	for i := range js {
 		js[i].CheckEveryReplay = true
